@@ -475,8 +475,16 @@ impl private::StoreCallbacks<Annotation> for AnnotationStore {
 
             if self.config.textrelationmap {
                 //now we add the gathered textselection to the textrelationmap (we needed this buffer because we couldn't have a mutable and immutable reference at once before)
-                self.textrelationmap
-                    .extend(extend_textrelationmap.into_iter());
+                //an annotation may reach the same text selection via multiple subselectors, it must be indexed only once
+                let mut unique: SmallVec<
+                    [(TextResourceHandle, TextSelectionHandle, AnnotationHandle); 1],
+                > = SmallVec::with_capacity(extend_textrelationmap.len());
+                for relation in extend_textrelationmap {
+                    if !unique.contains(&relation) {
+                        unique.push(relation);
+                    }
+                }
+                self.textrelationmap.extend(unique.into_iter());
             }
         }
 
